@@ -7,6 +7,7 @@ def crashName : FwCrash → String
   | .taskOutOfRange => "crash:task-out-of-range"
   | .nullTable => "crash:null-table"
   | .divByZero => "crash:div-by-zero"
+  | .shiftOutOfRange => "crash:shift-out-of-range"
 
 def lookupErrName : LookupErr → String
   | .divByZero => "crash:period-zero"
@@ -45,12 +46,75 @@ def framesRange (L : TrxconMframe.Layout) (fn0 n : Nat) : String :=
   | .error e => lookupErrName e
   | .ok xs => " ".intercalate xs
 
+/-! ### `mf.run`: the scheduler state machine -/
+
+inductive RunOp where
+  | reset | print | set (mask : Nat) | enable (id : Nat) | disable (id : Nat) | ticks (fn0 n : Nat)
+
+def parseRunOp (s : String) : Option RunOp :=
+  match s.toList with
+  | ['r'] => some .reset
+  | ['p'] => some .print
+  | 's' :: r => (String.ofList r).toNat?.map .set
+  | 'e' :: r => (String.ofList r).toNat?.map .enable
+  | 'd' :: r => (String.ofList r).toNat?.map .disable
+  | 't' :: r =>
+    match (String.ofList r).splitOn "," with
+    | [a, b] => do
+      let a ← a.toNat?
+      let b ← b.toNat?
+      pure (.ticks a b)
+    | _ => none
+  | _ => none
+
+def renderState (s : MfState) : String := s!"{s.tasks},{s.tasksTgt},{s.safeFn}"
+
+def rvOfList (rvs : List Int) : RvOf := fun st =>
+  match FwMframe.SchedSet.all.idxOf? st with
+  | some i => rvs.getD i 6
+  | none => 6
+
+def tickLoop (rv : RvOf) (fn0 : Nat) : Nat → Nat → MfState → List String → Except FwCrash (MfState × List String)
+  | 0, _, s, acc => .ok (s, acc.reverse)
+  | n + 1, k, s, acc =>
+    let fn := u32 (fn0 + k)
+    match mframeScheduleSt rv s fn with
+    | .error e => .error e
+    | .ok (evs, s') =>
+      let ev := if evs.isEmpty then "-" else ",".intercalate (evs.map (renderEvent fn))
+      tickLoop rv fn0 n (k + 1) s' (s!"{ev}@{s'.tasks}.{s'.safeFn}" :: acc)
+
+def runStep (rv : RvOf) (s : MfState) : RunOp → Except FwCrash (MfState × String)
+  | .reset => .ok (mframeReset, renderState mframeReset)
+  | .print => .ok (s, renderState s)
+  | .set m => let s' := mframeSet s m; .ok (s', renderState s')
+  | .enable i => do let s' ← mframeEnable s i; pure (s', renderState s')
+  | .disable i => do let s' ← mframeDisable s i; pure (s', renderState s')
+  | .ticks fn0 n => do
+    let (s', outs) ← tickLoop rv fn0 n 0 s []
+    pure (s', if outs.isEmpty then "-" else " ".intercalate outs)
+
+def runOps (rv : RvOf) : List RunOp → Nat → MfState → List String → String
+  | [], _, _, acc => if acc.isEmpty then "-" else "|".intercalate acc.reverse
+  | op :: rest, k, s, acc =>
+    match runStep rv s op with
+    | .error e => s!"{crashName e}@{k}"
+    | .ok (s', out) => runOps rv rest (k + 1) s' (out :: acc)
+
 /-- `mf.*` verbs -/
 def handle : List String → Option String
   | ["mf.fw", tasks, fn0, n] => do
       let v ← nats? [tasks, fn0, n]
       match v with
       | [tasks, fn0, n] => pure (fwRange tasks fn0 n)
+      | _ => none
+  | "mf.run" :: rvs :: init :: ops => do
+      let rvs ← ints? (rvs.splitOn ",")
+      if rvs.length != FwMframe.SchedSet.all.length then none
+      let st ← nats? (init.splitOn ",")
+      let ops ← ops.mapM parseRunOp
+      match st with
+      | [t, g, sf] => pure (runOps (rvOfList rvs) ops 0 ⟨u32 t, u32 g, u32 sf⟩ [])
       | _ => none
   | ["mf.layout", cfg, tn] => do
       let cfg ← parseNat? cfg; let tn ← parseNat? tn
